@@ -16,11 +16,27 @@ the case wrote down (category of every symbol, every delay node with its express
   duration, and the residual functions equal the flat equations with every `delay(..)` replaced
   by the value given to input `_pymoca_delay_k` of its pair.
 
+Two further streams make the verdict independent of how the model is compiled:
+* "simp": the model declares algebraic variables that the simplification passes eliminate
+  (`w0 = <state/input expression>`, `d0 = ±w0 | x0 | u0`, `d1 = ±d0`) and is compiled with
+  detect_aliases / eliminable_variable_expression / replace_{parameter,constant}_{values,expressions} /
+  resolve_parameter_values / eliminate_constant_assignments; durations regularly mention only such a
+  variable.  The expected verdict is the one without options (every eliminated variable stays
+  transitively dependent on a disallowed symbol); for accepted models the delay arguments are
+  evaluated with the removed symbols completed from their declaration / alias class / definition.
+* "cache": `transfer_model` is called twice on the same folder with cache=True (sampled:
+  codegen=True): every call must give the expected verdict, and a cached model must return the
+  same delay states and delay-argument values as the compiled one.
+
 Tie: the flat class captured at the `annotate_states` stage boundary (symbol table, generic AST,
 typed equations) is sent to the Lean model `PymocaVerif.Model.Delay` (driver `drv_c22`), which
 classifies the symbols (model of C10), translates the delays, runs the duration check and
 evaluates its delay arguments at the same points; verdict, delay symbols, shapes and values must
-be equal to the implementation's.
+be equal to the implementation's.  In the "simp" stream the model additionally applies the
+substitution the passes performed (read off the returned model's lists and alias relation, or the
+case description for a rejected model) to expressions *and* durations and removes the substituted
+names from the category table; in the "cache" stream its call-sequence state machine must give the
+implementation's sequence of outcomes.
 """
 import json
 import os
@@ -34,12 +50,19 @@ RULE = ("one case = one generated Modelica model with constants, parameters (sca
         "top-level inputs, states, algebraic variables, optionally a component instance (parameter, nested input, state, "
         "algebraic) and optionally a for-loop over vector variables; 1-4 delay() calls in equations, initial equations and "
         "loop bodies (also nested in a delayed expression or in a duration), durations drawn from every category mix; "
-        "options default / unroll_loops=False / expand_mx. non-trivial = at least one delay whose duration mentions a "
+        "options default / unroll_loops=False / expand_mx; stream simp: eliminated alias/eliminable variables in durations "
+        "under the simplification options; stream cache: two calls on one folder with cache=True / codegen=True. non-trivial = at least one delay whose duration mentions a "
         "declared symbol, or at least two delays; distinct = distinct case description")
 TRUSTED = ["`ca.depends_on` is structural dependence for the generated durations (every symbol occurs once, no zero "
            "coefficient, no cancellation)",
            "CasADi evaluates +,-,*,/ by powers of two exactly on small dyadic rationals"]
-ASSUMPTIONS = ["default compiler options except unroll_loops / expand_mx (no option that moves a variable to another category)",
+ASSUMPTIONS = ["main stream: default compiler options except unroll_loops / expand_mx",
+               "simp stream: every variable a simplification option eliminates (alias, eliminable expression) is defined, "
+               "transitively, by an expression that mentions a state or a non-fixed input, so that 'depends on' has the same "
+               "answer before and after the elimination; no `v = <allowed symbol>` alias equations, no constant assignments; "
+               "no iterative_simplification, no expand_vectors",
+               "cache stream: no vector parameters (load_model cannot read a cache with a vector parameter: RuntimeError in "
+               "variable_metadata, a C19 matter)",
                "for-loops run from 1 with step 1 over declared vector sizes; loop-indexed references are `v[i]`",
                "every delayed expression mentions at least one symbol (delay of a bare literal is not generated: the generator "
                "calls .size() on a Python number)",
@@ -996,7 +1019,8 @@ MANIFEST = dict(
                "per delay() in post-order, initial equations first, for-loop lifting) and of Model._post_checks (duration "
                "dependency test against the C10 classification): rejection iff some source duration mentions a disallowed "
                "category, one argument pair per source delay in order, and preservation of every delayed expression and "
-               "duration under evaluation. Tied to the real code on every run by a differential correspondence on the real "
+               "duration under evaluation; the duration check's verdict is invariant under the substituting simplification "
+               "passes, and successive cached calls give the compile outcome. Tied to the real code on every run by a differential correspondence on the real "
                "flat AST (verdict, delay symbols, exact values of the delay-argument function) plus a direct oracle on "
                "transfer_model (accept/reject per duration category mix; pairing of arguments, inputs and residuals at "
                "exact points).",
